@@ -2,8 +2,9 @@
 # usage: tools/confirm_seed.sh <dir with patch.diff demo.cpp meta.json> <name>   -- confirms a seeded change in a scratch worktree
 # prints: applies=yes/no suite=N/185 demo_with=FAIL/PASS demo_without=PASS/FAIL
 set -u
-D=$1; NAME=$2; WT=/tmp/confirm_wt
-if [ ! -d $WT ]; then git -C /repo worktree add --detach $WT 1e4eb61 >/dev/null 2>&1; (cd $WT && cmake -G Ninja -B _build -S . -DCMAKE_BUILD_TYPE=RelWithDebInfo -DCMAKE_CXX_FLAGS=-Wno-error -DGLM_BUILD_TESTS=ON >/dev/null); fi
+# BASE=<commit> (default: the pinned commit 1e4eb61); seeds made on the repaired tree are confirmed with BASE=HEAD
+D=$1; NAME=$2; BASE=${BASE:-1e4eb61}; WT=/tmp/confirm_wt; if [ "$BASE" != "1e4eb61" ]; then WT=/tmp/confirm_wt_head; if [ -d $WT ]; then git -C $WT checkout -q --detach $(git -C /repo rev-parse $BASE) 2>/dev/null; fi; fi
+if [ ! -d $WT ]; then git -C /repo worktree add --detach $WT $BASE >/dev/null 2>&1; (cd $WT && cmake -G Ninja -B _build -S . -DCMAKE_BUILD_TYPE=RelWithDebInfo -DCMAKE_CXX_FLAGS=-Wno-error -DGLM_BUILD_TESTS=ON >/dev/null); fi
 cd $WT && git checkout -q -- . 
 BUILD=$(python3 -c "import json,sys; print(json.load(open('$D/meta.json')).get('demo_build_cmd',''))")
 # extract -D / -m / -std flags from the recorded demo build command
